@@ -117,7 +117,7 @@ pub fn run(args: &Args) -> Report {
     } else {
         let n = if args.thorough { 30000 } else { 1500 };
         for i in 0..n {
-            let toks = gen_document(&g, &mut rng, GenOpts { opt_prob: [15, 35, 60][i % 3], version: [6u8, 6, 5, 3][i % 4], deprecated: i % 5 == 0, ..GenOpts::default() });
+            let toks = gen_document(&g, &mut rng, GenOpts { opt_prob: [15, 35, 60][i % 3], version: [6u8, 6, 5, 3][i % 4], deprecated: i % 5 == 0, specials: i % 4 == 2, ..GenOpts::default() });
             let mut text = render(&toks, &mut rng, [Layout::Canonical, Layout::Wild, Layout::Dense][i % 3], i % 7 == 2);
             let mut fam = "document";
             if i % 4 == 1 {
@@ -164,6 +164,14 @@ pub fn run(args: &Args) -> Report {
         let (Some((a, ca)), Some((b, cb))) = (sig_tokens(text), sig_tokens(&w)) else {
             rep.fail("retokenize", input, "written text does not tokenize".into());
             continue;
+        };
+        // A2ML `float` members are 32-bit: where the document has an A2ML block with such a member, numbers are
+        // compared at f32 precision (the value is written with all digits of the f32)
+        let (a, b) = if text.contains("A2ML") && text.contains("float") {
+            let f = |v: Vec<Sig>| -> Vec<Sig> { v.into_iter().map(|t| match t { Sig::Num(x) => Sig::Num(((f64::from_bits(x) as f32) as f64).to_bits()), o => o }).collect() };
+            (f(a), f(b))
+        } else {
+            (a, b)
         };
         if a != b {
             // the documented reordering of position-restricted items: same multiset
